@@ -118,6 +118,28 @@ PROPS = {
         "assumptions": ["code identifiers stand for code hashes (collision-free)", "the published info carries the bytecode when the code hash changed (info.code.is_some(): revm attaches it on CREATE and EIP-7702; exercised by e2e)"],
         "explanation": "Theorems code_entry_current, repr_code, repr_code_real (no hypothesis beyond the account being the logical one), codeChangedOk_real, redelegation_keeps_storage: after any sequence of deploy / set / re-point / clear / set-again / delete / recreate, a later transaction resolves exactly the code in-order execution sees, and storage is untouched by re-delegation.",
     },
+    "C12": {
+        "lean_modules": ["Props.C12"],
+        "harness": [e2e("delegated,code,lifecycle", 240, 6000, configs="w2,w3,seq", label="create-guard")],
+        "rule": "delegated family: EIP-7702 delegated accounts (delegates: payer, payer+refund router, CREATE creator, CREATE2 creator, self-destructor, a contract that DELEGATECALLs the creator) called by sponsors, by themselves, nested with value, through STATICCALL, through an ordinary contract that DELEGATECALLs the delegated account, through a reverting inner frame; ordinary-context calls of the same contracts; in-block re-pointing / clearing of a delegation; specs Shanghai, Cancun (policies must be inert), Prague, Osaka; the four policy combinations; oracle = stock revm whose CREATE/CREATE2 consult the decision table exported by the Lean model (Guard.effective over the observed static / create2 / spec / designator-in-context-account bits) and are the stock instruction otherwise; " + E2E_RULE,
+        "trusted_base": E2E_TRUST,
+        "modelled": ["guarded_create (src/delegated_safety/instructions.rs): order of the static, pre-Petersburg and designator checks", "the table swap in create_evm (src/scheduler/executor.rs) and DelegatedSafetyConfig::for_spec"],
+        "assumptions": ["`load_account_delegated(target).is_delegate_account_cold.is_some()` iff the context account's code is an EIP-7702 designator (the oracle decides this independently from the code bytes)", "all opcodes other than CREATE/CREATE2 come from EthInstructions::new_mainnet_with_spec unchanged (structural; exercised by the comparison with stock revm on every block)"],
+        "explanation": "Theorems guard_halts, guard_only_delegated, guard_inert_off, errors_keep_precedence, guard_exact (the engine differs from stock revm at a create iff guard on, >= Prague, stock would create, context account delegated), delegated_nonce_kept: complete case analyses of the six-input decision. Tied to the code by running every generated block against stock revm driven by this decision table.",
+    },
+    "C13": {
+        "lean_modules": ["Props.C13"],
+        "harness": [
+            {"sub": "reserve", "quick": {"cases": 2000}, "thorough": {"cases": 100000}, "timeout": 3000},
+            e2e("delegated", 240, 6000, configs="w2,w3,seq", label="reserve-policy"),
+        ],
+        "rule": "reserve-differential: (a) planner: random blocks of 1-12 transactions over 1-4 senders with costs from 0 to overflowing max_balance_spending, queried for random (txid, address) pairs in random order with repetitions on the real ReservePlanner vs Model/Reserve.requiredAfter; (b) journal scan: random valid journals (forward-simulated balances; transfers incl. self-transfers and zero amounts, self-destructs with beneficiary, balance changes, unrelated entries, entries before the checkpoint, root-value transfer present/absent, look-alikes of the root transfer) over accounts with and without EIP-7702 designator on the real delegated_debits_since vs Model/Reserve.delegatedDebits (address, balance before first debit, final balance); e2e (reserve-policy): delegated family (see C12) with the reserve on/off; for reserve-on blocks the reference is grevm's sequential path, checked by (1) fundability: a sender whose block-start balance covers the maximum cost of all its transactions is never skipped for lack of funds, (2) against stock revm with the policy off up to the first differing transaction: agreeing transactions must not leave a delegated account (debited in someone else's transaction) below the cost of its later transactions, the first differing one must be a top-level revert with empty output justified by a delegated account ending below that cost; parallel runs (free and under controller schedules) must equal the sequential reference; " + E2E_RULE,
+        "trusted_base": E2E_TRUST,
+        "modelled": ["ReservePlanner::{required_after, sender_index, build_schedule}, AccountReserveSchedule::required_after", "delegated_debits_since, is_root_value_transfer, balance_before_entry", "has_reserve_violation (the comparison final < min(before, future cost), future cost non-zero)"],
+        "assumptions": ["TxEffect.Sane (hypotheses of fundable): outside delegated execution a transaction lowers an account's balance by at most the sender's own maximum cost; the forced revert restores the post-fee state (revm's checkpoint_revert; exercised by the e2e fundability check)", "the OnceLock/DashMap caching of the planner is abstracted as a pure function (query-order independence is exercised by the differential)"],
+        "partial": ["the forced revert itself (checkpoint revert, create-nonce restore, refund and reimbursement re-application in handler.rs enforce_reserve) is not modelled; it is covered by the parallel = sequential comparison and the policy-off comparison only up to the first forced revert of a block"],
+        "explanation": "Theorems planner_spec (the implemented index + suffix array + binary search equals the saturating cost of the account's later transactions), reqFrom_eq_min, requiredSpec_step, balance_before_exact (undoing the surviving journal yields the balance before the first debit), violates_iff, no_candidates_no_violation, no_future_cost_no_violation, step_keeps_reserve, fundable (block-level: an account that can pay all its transactions at block start can pay each of them when its turn comes).",
+    },
     "C14": {
         "lean_modules": ["Props.C14"],
         "harness": [{"sub": "once", "quick": {"cases": 400}, "thorough": {"cases": 20000}, "timeout": 3000}],
